@@ -126,6 +126,12 @@ fn cert_template(t: &str) -> Value {
 		// the shortest key identifier a caller can give
 		p["kid"] = json!({"k": "pre", "b": []});
 	}
+	if t.ends_with("/ns") {
+		// validity bounds with a sub-second part, one of them beyond 2049 (GeneralizedTime): what is encoded has whole seconds,
+		// what the returned object reports is what was given
+		p["nb"] = json!({"y": 2049, "mo": 12, "d": 31, "h": 23, "mi": 59, "s": 59, "ns": 250_000_000, "off": 0});
+		p["na"] = json!({"y": 2050, "mo": 6, "d": 1, "h": 12, "mi": 30, "s": 15, "ns": 500_000_000, "off": 0});
+	}
 	if t.ends_with("/s20") {
 		// the longest serial number the profile allows, with its first bit set (the shape of an automatic serial before clearing)
 		p["serial"] = json!({"k": "given", "b": [0x9c, 0xa5, 3, 4, 5, 6, 7, 8, 9, 10, 11, 12, 13, 14, 15, 16, 17, 18, 19, 0xff]});
@@ -370,7 +376,7 @@ pub fn interfere(x: &str, sh: &Shared, rng: &mut Rng) {
 	});
 }
 
-pub const TEMPLATES: [&str; 23] = ["cert-self/s20", "cert-issued/s20", "crl/s20", "cert-self/rm", "csr/rm", "cert-issued/auto/2", "cert-self/r3", "cert-self/e0", "crl/e0", "cert-self/1", "cert-self/2", "cert-issued/1", "cert-issued/2", "csr/1", "csr/2", "crl/1", "crl/2",
+pub const TEMPLATES: [&str; 25] = ["cert-issued/ns", "cert-self/ns", "cert-self/s20", "cert-issued/s20", "crl/s20", "cert-self/rm", "csr/rm", "cert-issued/auto/2", "cert-self/r3", "cert-self/e0", "crl/e0", "cert-self/1", "cert-self/2", "cert-issued/1", "cert-issued/2", "csr/1", "csr/2", "crl/1", "crl/2",
 	"cert-issued/n2", "cert-issued/k2", "cert-issued/ra", "cert-issued/rb", "crl/n2", "crl/k2"];
 /// cheap templates (Ed25519 signers) that alternate between issuers differing in one component: hammered by the hot phase
 pub const HOT: [&str; 7] = ["cert-issued/1", "cert-issued/n2", "cert-issued/k2", "crl/1", "crl/n2", "crl/k2", "cert-issued/auto/2"];
